@@ -46,6 +46,16 @@ Theorem C01_toric2d_logicals_commute_with_stabilizers_for_all_sizes :
 Proof. exact toric2d_logicals_commute_with_stabilizers. Qed.
 Print Assumptions C01_toric2d_logicals_commute_with_stabilizers_for_all_sizes.
 
+(** Layer P, Toric2DCode, every size: logical X_i and Z_j share one qubit when i = j and none otherwise
+    (they anticommute exactly when i = j). *)
+From PQ Require Toric2DPairing.
+Theorem C01_toric2d_logical_pairing_for_all_sizes :
+  forall (Lx Ly : BinNums.Z), (1 <= Lx)%Z -> (1 <= Ly)%Z ->
+  Toric2D.overlap_par (Toric2D.lx1 Lx) (Toric2D.lz1 Ly) = true /\ Toric2D.overlap_par (Toric2D.lx1 Lx) (Toric2D.lz2 Lx) = false /\
+  Toric2D.overlap_par (Toric2D.lx2 Ly) (Toric2D.lz1 Ly) = false /\ Toric2D.overlap_par (Toric2D.lx2 Ly) (Toric2D.lz2 Lx) = true.
+Proof. exact Toric2DPairing.toric2d_logical_pairing. Qed.
+Print Assumptions C01_toric2d_logical_pairing_for_all_sizes.
+
 (** Layer P, Planar2DCode (open boundaries), every size L_x, L_y >= 2 *)
 From PQ Require Planar2D.
 Theorem C01_planar2d_all_stabilizers_commute_for_all_sizes :
